@@ -21,6 +21,7 @@ structure Row where
 def all : Nat := 255
 def notWarcinfo : Nat := 254
 
+/-- rows in the order of their names (the translator emits the Go table in that order: the Go code reaches a row by name only) -/
 def warcFieldTable : List Row := [
   ⟨"", .string, true, all, 3⟩,                                   -- any other (unknown) field: free text, may repeat
   ⟨"Content-Length", .nat, false, all, 3⟩,
@@ -31,22 +32,22 @@ def warcFieldTable : List Row := [
   ⟨"WARC-Filename", .string, false, 1, 3⟩,                       -- warcinfo only
   ⟨"WARC-IP-Address", .ip, false, 2 + 4 + 8 + 16 + 32, 3⟩,
   ⟨"WARC-Identified-Payload-Type", .string, false, all, 3⟩,
+  ⟨"WARC-JSON-Metadata", .string, false, notWarcinfo, 0⟩,
+  ⟨"WARC-Page-ID", .string, false, notWarcinfo, 0⟩,
   ⟨"WARC-Payload-Digest", .string, false, all, 3⟩,
   ⟨"WARC-Profile", .uri, false, 32, 3⟩,                          -- revisit
   ⟨"WARC-Record-ID", .id, false, all, 3⟩,
   ⟨"WARC-Refers-To", .id, false, 16 + 32 + 64, 3⟩,               -- metadata, revisit, conversion
   ⟨"WARC-Refers-To-Date", .time, false, 32, 2⟩,                  -- WARC 1.1, revisit
   ⟨"WARC-Refers-To-Target-URI", .uri, false, 32, 2⟩,             -- WARC 1.1, revisit
+  ⟨"WARC-Resource-Type", .string, false, notWarcinfo, 0⟩,
   ⟨"WARC-Segment-Number", .nat, false, all, 3⟩,
   ⟨"WARC-Segment-Origin-ID", .id, false, 128, 3⟩,                -- continuation
   ⟨"WARC-Segment-Total-Length", .nat, false, 128, 3⟩,            -- continuation
   ⟨"WARC-Target-URI", .uri, false, notWarcinfo, 3⟩,              -- "shall not be used in warcinfo records"
   ⟨"WARC-Truncated", .string, false, all, 3⟩,
   ⟨"WARC-Type", .string, false, all, 3⟩,
-  ⟨"WARC-Warcinfo-ID", .id, false, notWarcinfo, 3⟩,
-  ⟨"WARC-Page-ID", .string, false, notWarcinfo, 0⟩,
-  ⟨"WARC-Resource-Type", .string, false, notWarcinfo, 0⟩,
-  ⟨"WARC-JSON-Metadata", .string, false, notWarcinfo, 0⟩
+  ⟨"WARC-Warcinfo-ID", .id, false, notWarcinfo, 3⟩
 ]
 
 /-- the four mandatory fields -/
